@@ -136,6 +136,8 @@ def _unfold(interp, xs, t):
         st.no_fork += 1
         try:
             e = models.slist_elem(interp, xs, t)
+        except Unsupported:
+            return        # the element at this index needs a case split (a derived sequence): no instance here
         finally:
             st.no_fork -= 1
     if not isinstance(e, (SStr, str)):
@@ -290,6 +292,17 @@ def m_is_line(interp, args, kwargs):
     return wrap(is_line_term(t))
 
 
+def m_line_body(interp, args, kwargs):
+    """spec function: a line without its final new-line"""
+    (x,) = args
+    if isinstance(x, str):
+        return x[:-1] if x.endswith('\n') else x
+    t = to_z3(x)
+    for ax in line_body_axioms(t):
+        interp.st._add(ax)
+    return wrap(_body_fn()(t))
+
+
 def _lines_fns():
     s, i = z3.StringSort(), z3.IntSort()
     return (z3.Function('nlines', s, i), z3.Function('line_at', s, i, s), z3.Function('lines_prefix', s, i, s))
@@ -333,6 +346,10 @@ def lines_of_text(interp, t):
     st._add((n == 0) == (tt == z3.StringVal('')))
     st._add(z3.ForAll([j], z3.Implies(z3.And(j >= 0, j < n), is_line_term(la(tt, j)))))
     st._add(z3.ForAll([j], z3.And(*line_body_axioms(la(tt, j)))))
+    # TRUSTED LEMMA (bounded-checked, C14 `lemmas`): a line has at most one '\n', at its end -- stripping all trailing
+    # '\n' (str.rstrip('\n'), as the code does) is removing that one
+    rstrip_nl = z3.Function("str.rstrip[%r]" % '\n', z3.StringSort(), z3.StringSort())
+    st._add(z3.ForAll([j], z3.Implies(z3.And(j >= 0, j < n), rstrip_nl(la(tt, j)) == _body_fn()(la(tt, j)))))
     st._add(z3.ForAll([j], z3.Implies(z3.And(j >= 0, j < n - 1), z3.SuffixOf(_nl(), la(tt, j)))))
     return xs
 
